@@ -19,7 +19,7 @@ RULE = ('Hypothesis-drawn well-sorted scripts over all theories of the typed '
         'every leaf of the result is exactly one lexeme for the reference reader; '
         'parse(render(result)) equals the result for ddSMT\'s parser and for the '
         'reference reader; every introduced declaration declares a symbol that was '
-        'not declared before, only once, and precedes its first use.  Non-trivial: a '
+        'not declared before, only once, and precedes its first use; no symbol is declared or defined more often than in the input.  The mutator instances live as long as the shard (as in a ddSMT run): they are asked about the original input before the accepted steps and about every earlier case.  Non-trivial: a '
         'proposal of a mutator other than EraseNode on a script with a trap; distinct '
         '= (script, mutator, node index).')
 ASSUMPTIONS = [
@@ -43,13 +43,49 @@ def declared_symbols(plain_list):
     return out
 
 
-def check_proposals(dd, exprs, acc, case, counts, traps):
+def declaration_counts(plain_list):
+    """name -> number of well-formed top-level commands that declare or define it as a function symbol"""
+    arity = {'declare-const': 3, 'declare-fun': 4, 'define-fun': 5, 'define-fun-rec': 5, 'define-const': 4}
+    out = {}
+    for c in plain_list:
+        if isinstance(c, list) and len(c) >= 2 and isinstance(c[0], str) and isinstance(c[1], str) \
+                and arity.get(c[0]) == len(c):
+            out[c[1]] = out.get(c[1], 0) + 1
+    return out
+
+
+def make_instances(dd):
+    """ddSMT creates its mutators once per run and asks the same instances about every
+    intermediate input; the check keeps one set of instances per shard as well."""
+    return [(name, cls()) for name, (mod, cls, _, _) in sorted(env.all_mutator_classes(dd).items())]
+
+
+def warm(dd, muts, exprs):
+    """Ask every instance about every node of an (earlier) input; results are discarded."""
+    dd.smtlib.collect_information(exprs)
+    for node in dd.nodes.bfs(exprs):
+        for _, m in muts:
+            try:
+                with guard.cpu_limit(CPU):
+                    if hasattr(m, 'filter') and not m.filter(node):
+                        continue
+                    if hasattr(m, 'mutations'):
+                        list(m.mutations(node))
+                    if hasattr(m, 'global_mutations'):
+                        list(m.global_mutations(node, exprs))
+            except (Exception, guard.CpuTimeout):  # noqa
+                pass
+
+
+def check_proposals(dd, exprs, acc, case, counts, traps, muts=None):
     """Enumerate every proposal on ``exprs`` and judge it."""
     plain = model.to_plain(exprs)
     ids = {n.id for n in dd.nodes.dfs(exprs)}
     declared = declared_symbols(plain)
+    decl_counts = declaration_counts(plain)
     base_leaves = {t for t in model.preorder_list(plain) if isinstance(t, str)}
-    muts = [(name, cls()) for name, (mod, cls, _, _) in sorted(env.all_mutator_classes(dd).items())]
+    if muts is None:
+        muts = make_instances(dd)
     tmp = os.path.join(case['_workdir'], 'c15-check.smt2')
     nt = False
     pub = {k: v for k, v in case.items() if not k.startswith('_')}
@@ -146,7 +182,12 @@ def check_proposals(dd, exprs, acc, case, counts, traps):
                         break
                 if not ok:
                     continue
-                # declarations
+                # declarations: no symbol is declared / defined more often than before (a
+                # declaration may also be "introduced" by renaming an existing one)
+                rc = declaration_counts(rplain)
+                dup = sorted(n for n, k in rc.items() if k > max(1, decl_counts.get(n, 0)))
+                if dup:
+                    V('duplicate-declaration', f'the result declares {dup[:3]} more than once (the input did not)')
                 seen = set()
                 for dcl in simp.fresh_vars:
                     dp = model.to_plain(dcl)
@@ -230,14 +271,21 @@ def add_traps(draw, s):
         traps.add('check-sat-assuming')
     bvs = [n for n, so in s.consts.items() if so[0] == 'BV' and so[1] >= 2 and not n.startswith('|')]
     if bvs and draw(st.booleans()):
-        extra.append(['declare-const', '_' + bvs[0], ['_', 'BitVec', '1']])
+        if draw(st.booleans()):
+            extra.append(['declare-const', '_' + bvs[0], ['_', 'BitVec', '1']])
+        else:
+            extra.append(['define-fun', '_' + bvs[0], [], ['_', 'BitVec', '1'], '#b1'])
         traps.add('underscore-name-taken')
     plain_strs = [n for n in strs if not n.startswith('|')]
     if plain_strs and draw(st.booleans()):
         extra.append(['assert', ['str.contains', plain_strs[-1], draw(st.sampled_from(['"q"', '"a b"']))]])
         traps.add('str.contains-variable')
     elif plain_strs and draw(st.booleans()):
-        extra.append(['declare-const', plain_strs[0] + draw(st.sampled_from(['_prefix', '_suffix'])), 'String'])
+        tn = plain_strs[0] + draw(st.sampled_from(['_prefix', '_suffix']))
+        if draw(st.booleans()):
+            extra.append(['declare-const', tn, 'String'])
+        else:
+            extra.append(['define-fun', tn, [], 'String', '"dq"'])
         extra.append(['assert', ['str.contains', plain_strs[0], '"q"']])
         traps.add('prefix-name-taken')
     if draw(st.booleans()):
@@ -279,13 +327,25 @@ def cases(draw):
     return dict(cmds=cmds, picks=picks, traps=sorted(traps), fresh_trap=fresh_trap)
 
 
-def run_case(dd, case, acc, workdir, counts):
+def run_case(dd, case, acc, workdir, counts, muts=None):
     case = dict(case, _workdir=workdir)
     os.makedirs(workdir, exist_ok=True)
+    if muts is None:
+        # replay: fresh instances that have seen the recorded earlier inputs
+        muts = make_instances(dd)
+        for h in case.get('history', []):
+            try:
+                with guard.cpu_limit(60.0):
+                    warm(dd, muts, [model.to_node(dd, c) for c in h])
+            except guard.CpuTimeout:
+                pass
     exprs = [model.to_node(dd, c) for c in case['cmds']]
     try:
         with guard.cpu_limit(60.0):
             if case['picks']:
+                # the instances are asked about the original input, then (below) about the
+                # input a few accepted steps later: state kept in an instance must not leak
+                warm(dd, muts, exprs)
                 exprs = random_steps(dd, exprs, case['picks'])
                 # only well-formed lists can be judged
                 if not all(isinstance(x, dd.nodes.Node) for x in exprs):
@@ -310,7 +370,7 @@ def run_case(dd, case, acc, workdir, counts):
                         exprs = dd.smtlib.introduce_variables(exprs, [decl])
                         dd.smtlib.collect_information(exprs)
                         break
-            return check_proposals(dd, exprs, acc, case, counts, case['traps'])
+            return check_proposals(dd, exprs, acc, case, counts, case['traps'], muts)
     except guard.CpuTimeout:
         acc.skip('cpu-limit')
         return False
@@ -322,8 +382,16 @@ def shard(ctx, acc):
     total = 500 if ctx.quick else 12000
     counts = {}
 
+    muts = make_instances(dd)
+    hist = []
+
     def body(case):
-        nt = run_case(dd, case, acc, ctx.workdir, counts)
+        case = dict(case, history=list(hist))
+        if not hist:
+            hist.append(case['cmds'])
+        else:
+            hist[1:] = [case['cmds']]
+        nt = run_case(dd, case, acc, ctx.workdir, counts, muts)
         text = model.render_list(case['cmds'])
         acc.case(dict(script=text, picks=case['picks']), nontrivial=nt,
                  classes=['trap-' + t for t in case['traps']] + [f'steps-{len(case["picks"])}'],
